@@ -21,19 +21,20 @@ Proof. induction s as [|[k o] s IH]; [reflexivity|]. cbn [remove_id].
   destruct (Nat.eqb_spec k i) as [->|Hki]; [exact IH|]. cbn [lookup].
   destruct (Nat.eqb_spec k i); [contradiction|exact IH]. Qed.
 
-(* the instance an op acts on, and the instance it (re)defines *)
-Definition op_reads (o : op) : option nat :=
+(* the instances an op acts on, and the instance it (re)defines *)
+Definition op_reads (o : op) : list nat :=
   match o with
-  | OpNew _ _ _ _ _ | OpFromState _ _ _ _ _ | OpCat _ | OpSub _ _ _ | OpOther => None
+  | OpNew _ _ _ _ _ | OpFromState _ _ _ _ _ | OpCat _ | OpSub _ _ _ | OpOther => []
+  | OpCloneFrom dst src => [dst; src]
   | OpClone id _ | OpDrop id | OpBlk id _ | OpBlks id _ | OpPad id _ _ _ _ _ | OpUnpad id _ _ | OpAsync id _
   | OpIvState id | OpBuf id _ | OpGetState id | OpApply id _ | OpSeek id _ _ | OpPos id _ | OpKsBlocks id _
   | OpApplyBlks id _ | OpApplyBlk id _ | OpRemaining id | OpGetPos id | OpSetPos id _ | OpWrap id _
-  | OpCore id _ | OpCts id _ _ => Some id
+  | OpCore id _ | OpCts id _ _ => [id]
   end.
 Definition op_defines (o : op) : option nat :=
   match o with
   | OpNew id _ _ _ _ | OpFromState id _ _ _ _ => Some id
-  | OpClone _ newid | OpWrap _ newid | OpCore _ newid => Some newid
+  | OpClone _ newid | OpCloneFrom newid _ | OpWrap _ newid | OpCore _ newid => Some newid
   | _ => None
   end.
 
@@ -45,27 +46,38 @@ Section Frame.
            | |- context [match ?x with _ => _ end] => destruct x
            | |- context [if ?x then _ else _] => destruct x
            end;
-    cbn [fst]; rewrite ?lookup_update_ne, ?lookup_remove_ne by congruence; try reflexivity.
+    cbn [fst]; rewrite ?lookup_update_ne, ?lookup_remove_ne by (cbn [In] in *; intuition congruence); try reflexivity.
 
   (* frame: an op leaves every instance it neither names nor defines untouched *)
-  Theorem step_frame s rs o j : op_reads o <> Some j -> op_defines o <> Some j ->
+  Theorem step_frame s rs o j : ~ In j (op_reads o) -> op_defines o <> Some j ->
     lookup (fst (step bs w dm s rs o)) j = lookup s j.
   Proof.
-    intros Hr Hd. destruct o; cbn [op_reads op_defines] in Hr, Hd; cbn [step]; crush j.
+    intros Hr Hd. destruct o; cbn [op_reads op_defines In] in Hr, Hd; cbn [step]; crush j.
   Qed.
 
   (* locality / determinism: two stores that agree on the instances an op names or defines (its
      footprint) give the same result and still agree on the footprint afterwards; together with
      [step_frame], the outputs of an instance are a function of its own lineage only *)
   Theorem step_local s1 s2 rs o :
-    (forall id, op_reads o = Some id \/ op_defines o = Some id -> lookup s1 id = lookup s2 id) ->
+    (forall id, In id (op_reads o) \/ op_defines o = Some id -> lookup s1 id = lookup s2 id) ->
     snd (step bs w dm s1 rs o) = snd (step bs w dm s2 rs o) /\
-    (forall j, op_reads o = Some j \/ op_defines o = Some j ->
+    (forall j, In j (op_reads o) \/ op_defines o = Some j ->
                lookup (fst (step bs w dm s1 rs o)) j = lookup (fst (step bs w dm s2 rs o)) j).
   Proof.
-    intros H. destruct o; cbn [op_reads op_defines] in *; cbn [step];
-      try (rewrite (H _ (or_introl eq_refl)));
-      (split; [| intros j Hj; pose proof (H j Hj) as Hjj; destruct Hj as [Hj|Hj]; try discriminate; injection Hj as <-]);
+    intros H. destruct o as [| | |dst src | | | | | | | | | | | | | | | | | | | | | | | |].
+    4: { (* clone_from: reads dst and src, redefines dst *)
+      cbn [op_reads op_defines In] in *; cbn [step].
+      rewrite (H dst) by auto. rewrite (H src) by auto.
+      split; [| intros j Hj];
+      repeat match goal with
+             | |- context [match ?x with _ => _ end] => destruct x
+             end; cbn [fst snd]; try reflexivity; try (apply H; exact Hj);
+      (destruct (Nat.eq_dec dst j) as [->|Hne];
+       [rewrite !lookup_update_eq; reflexivity
+       | rewrite !lookup_update_ne by congruence; apply H; exact Hj]). }
+    all: cbn [op_reads op_defines In] in *; cbn [step];
+      try (rewrite (H _ (or_introl (or_introl eq_refl))));
+      (split; [| intros j Hj; pose proof (H j Hj) as Hjj; destruct Hj as [Hj|Hj]; [try contradiction; try (destruct Hj as [Hj|Hj]; [subst j | contradiction]) | try discriminate; try (injection Hj as <-)]]);
       repeat match goal with
              | |- context [match ?x with _ => _ end] => destruct x
              | |- context [if ?x then _ else _] => destruct x
@@ -83,4 +95,15 @@ Section Frame.
     (match ob with OCore SBelt _ _ | OWrap SBelt _ _ => False | _ => True end) ->
     lookup (fst (step bs w dm s rs (OpClone id newid))) newid = Some ob.
   Proof. intros H Hk. cbn [step]. rewrite H. destruct ob as [| |[]| []|]; try contradiction; cbn [fst]; apply lookup_update_eq. Qed.
+
+  (* clone_from, when it succeeds, leaves in dst exactly the value src holds *)
+  Theorem step_clone_from s rs dst src ob :
+    lookup (fst (step bs w dm s rs (OpCloneFrom dst src))) dst = Some ob ->
+    snd (step bs w dm s rs (OpCloneFrom dst src)) = ROk -> lookup s src = Some ob.
+  Proof.
+    cbn [step]. destruct (lookup s dst) as [[]|]; destruct (lookup s src) as [[]|]; cbn [fst snd]; try discriminate;
+    repeat match goal with
+           | |- context [if ?x then _ else _] => destruct x eqn:?
+           end; cbn [fst snd]; try discriminate; rewrite lookup_update_eq; intros H _; exact H.
+  Qed.
 End Frame.
